@@ -3,7 +3,10 @@
    durable and are the Alh values of the transactions, the committed id never exceeds
    latestSyncedNode, so the reset-to-committed of OpenWith (fix 2077e08) always lands on genuine
    leaves and the re-link rebuilds the rest.  For the code before b260503 the statement is refuted
-   (Crash/Refuted.v, tree_refuted: history). *)
+   (Crash/Refuted.v, tree_refuted: history).
+   With the proposed repair fixes/C03-aht-durable-reset.diff (c_ahtreset = true) the durable size of the
+   tree's commit log IS latestSyncedNode, the size check of ahtree.OpenWith never fails and crash
+   safety holds without the exception stated in Crash/Theorems.v. *)
 From V Require Import Crash.Storage Crash.StorageProofs Crash.Protocol Crash.RecordProofs Crash.AhtProofs
   Crash.InvProofs Crash.ValuesProofs Crash.RecoverProofs Crash.Theorems Crash.Progress.
 From Coq Require Import ZifyN ZifyNat ZifyBool Lia.
@@ -62,7 +65,8 @@ Definition TA (a : aht) (h : list trec) : Prop :=
 Record TInv (s : st) (h : list trec) : Prop := mkTInv {
   t_ta : TA (aht_of s) h;
   t_comm : committed s <= alatest s;
-  t_pc : match phase_ s with PC _ => alatest s = asize s /\ asize s = precommitted s | _ => True end
+  t_pc : match phase_ s with PC _ => alatest s = asize s /\ asize s = precommitted s | _ => True end;
+  t_dur : c_ahtreset (s_cfg s) = true -> len (durable (ahc s)) = 12 * alatest s
 }.
 
 Lemma TA_ext a h h' : TA a h -> firstn (N.to_nat (a_size a)) h' = firstn (N.to_nat (a_size a)) h ->
@@ -78,40 +82,44 @@ Qed.
 (* sync() *)
 Lemma aht_sync_TA thld a h a' :
   AInv thld a -> TA a h -> aht_sync a = Ok a' ->
-  TA a' h /\ a_latest a' = a_size a /\ a_size a' = a_size a /\ AInv thld a'.
+  TA a' h /\ a_latest a' = a_size a /\ a_size a' = a_size a /\ AInv thld a' /\
+  (len (durable (a_c a)) = 12 * a_latest a -> len (durable (a_c a')) = 12 * a_latest a').
 Proof.
   intros IA T E.
   destruct (aht_sync_AInv _ _ IA) as (a'' & E'' & IA' & Sz & La & _).
   assert (a'' = a') by congruence. subst a''.
-  destruct IA as (Wd & Wc & Hs & Hc & H32 & Hp & Hb & H12 & Hdur).
+  destruct IA as (Wd & Wc & Hs & Hc & H32 & Hp & Hb & H12 & Hbl & Hm).
   destruct T as (A1 & A2 & A3 & A4 & A5 & A6 & A7 & A8).
-  split; [|auto].
-  destruct (aht_sync_content a a' Wd Wc Hp Hb H12 E) as [(Z & ->)|(NZ & D1 & D2 & D3 & D4 & D5 & D6 & D7 & D8 & D9)].
-  - unfold TA. repeat split; auto.
-  - assert (Ll: 32 * a_size a <= len (lview (a_d a))) by (rewrite len_lview by auto; lia).
+  destruct (aht_sync_content a a' Wd Wc Hp Hb H12 Hbl E) as [(Z & ->)|(NZ & D1 & D2 & D3 & D4 & D5 & D6 & D7 & D8 & D9)].
+  - split; [|auto]. unfold TA. repeat split; auto.
+  - split; [|split; [auto|split; [auto|split; [auto|intros _; rewrite D6, D7; reflexivity]]]].
+    assert (Ll: 32 * a_size a <= len (lview (a_d a))) by (rewrite len_lview by auto; lia).
     unfold TA. rewrite D1, D2, D4, D5, D7, D8. rewrite Hs.
     split; [lia|]. split; [exact A2|]. split; [exact Ll|]. split; [exact A7|].
-    split; [constructor|]. split; [lia|]. split; [exact A7|]. rewrite <- Hs. exact D6.
+    split; [constructor|]. split; [lia|]. split; [exact A7|]. rewrite <- Hs. rewrite D6. lia.
 Qed.
 
 (* Append of the Alh of the next transaction of h *)
 Lemma aht_append_TA thld a h r a' :
   AInv thld a -> TA a h -> nth_error h (N.to_nat (a_size a)) = Some r -> len (t_alh r) = 32 ->
   aht_append thld a (t_alh r) = Ok a' ->
-  TA a' h /\ a_size a' = a_size a + 1 /\ a_latest a <= a_latest a' /\ AInv thld a'.
+  TA a' h /\ a_size a' = a_size a + 1 /\ a_latest a <= a_latest a' /\ AInv thld a' /\
+  (len (durable (a_c a)) = 12 * a_latest a -> len (durable (a_c a')) = 12 * a_latest a').
 Proof.
   intros IA T En Lr E.
-  destruct (aht_append_ok thld a (t_alh r) IA Lr) as (a'' & E'' & IA' & Sz & _).
+  destruct (aht_append_ok thld a (t_alh r) IA Lr) as (a'' & E'' & IA' & Sz).
   assert (a'' = a') by congruence. subst a''.
   pose proof IA as IA0.
-  destruct IA as (Wd & Wc & Hs & Hc & H32 & Hp & Hb & H12 & Hdur).
+  destruct IA as (Wd & Wc & Hs & Hc & H32 & Hp & Hb & H12 & Hbl & Hm).
   destruct T as (A1 & A2 & A3 & A4 & A5 & A6 & A7 & A8).
   assert (Hlt: (N.to_nat (a_size a) < length h)%nat) by (apply nth_error_Some; congruence).
   unfold aht_append in E.
-  destruct (f_setoffset (a_d a) (32 * a_size a)) as [d1|] eqn:Es; [|discriminate].
-  destruct (f_setoffset_spec _ _ _ Wd Es) as (S1 & S2 & S3 & S4 & S5 & S6 & S7 & S8 & _).
+  unfold f_setoffset in E.
+  destruct (f_setoffset_gen false (a_d a) (32 * a_size a)) as [d1|] eqn:Es; [|discriminate].
+  destruct (f_setoffset_spec _ _ _ _ Wd Es) as (S1 & S2 & S3 & S4 & _ & _ & S6 & S7 & S8 & _ & S11).
   assert (Ll: 32 * a_size a <= len (lview (a_d a))) by (rewrite len_lview by auto; lia).
   specialize (S6 Ll).
+  assert (S5: offs_ge (32 * a_latest a) (pending d1)) by (apply S11; auto; lia).
   set (d2 := f_append d1 (t_alh r)) in *.
   assert (W2: wf d2) by (apply wf_append; auto).
   assert (V2: take (32 * (a_size a + 1)) (lview d2) = leaves (firstn (N.to_nat (a_size a + 1)) h)).
@@ -132,16 +140,16 @@ Proof.
               32 * a_latest a1 <= len (durable (a_d a1)) /\
               take (32 * a_latest a1) (durable (a_d a1)) = leaves (firstn (N.to_nat (a_latest a1)) h) /\
               offs_ge (32 * a_latest a1) (pending (a_d a1)) /\ 12 * a_latest a1 <= len (durable (a_c a1))).
-  { unfold a1, d2. cbn [a_d a_c a_size a_latest f_append durable pending]. rewrite S4, S5. repeat split; auto; lia. }
+  { unfold a1, d2. cbn [a_d a_c a_size a_latest f_append durable pending]. rewrite S4. repeat split; auto; lia. }
   destruct T1 as (U1 & U3 & U4 & U5 & U8).
   cbn [a_cnt a1] in E2.
   destruct (N.eqb_spec (a_cnt a + 1) thld) as [Et|Nt].
   - (* threshold reached: sync *)
     assert (Wd1: wf (a_d a1)) by exact W2.
-    destruct (aht_sync_content a1 a2 Wd1 Wc Hp Hb H12 E2) as [(Z & _)|(NZ & D1 & D2 & D3 & D4 & D5 & D6 & D7 & D8 & D9)].
+    destruct (aht_sync_content a1 a2 Wd1 Wc Hp Hb H12 Hbl E2) as [(Z & _)|(NZ & D1 & D2 & D3 & D4 & D5 & D6 & D7 & D8 & D9)].
     { cbn [a1 a_cnt] in Z. lia. }
     cbn [a1 a_d a_c a_size a_latest a_cnt] in *.
-    split; [|split; [cbn [a_size]; lia|split; [cbn [a_latest]; lia|exact IA']]].
+    split; [|split; [cbn [a_size]; lia|split; [cbn [a_latest]; lia|split; [exact IA'|intros _; cbn [a_c a_latest]; rewrite D6, D7; reflexivity]]]].
     unfold TA. cbn [a_d a_c a_size a_latest a_cnt]. rewrite D1, D2, D4, D5, D7, D8.
     assert (Ls: a_latest a + (a_cnt a + 1) = a_size a + 1) by lia. rewrite Ls in *.
     assert (Ll2: 32 * (a_size a + 1) <= len (lview d2)).
@@ -150,13 +158,13 @@ Proof.
     split; [lia|]. split; [lia|]. split; [exact Ll2|]. split; [exact V2|].
     split; [constructor|]. split.
     { unfold d2, f_offset. cbn [f_append bufoff buf]. rewrite len_app, Lr. unfold f_offset in S3. lia. }
-    split; [exact V2|exact D6].
+    split; [exact V2|rewrite D6; lia].
   - (* below the threshold: only buffered *)
     apply Q in E2. subst a2. cbn [a1 a_d a_c a_size a_latest a_cnt].
-    split; [|split; [reflexivity|split; [lia|exact IA']]].
+    split; [|split; [reflexivity|split; [lia|split; [exact IA'|auto]]]].
     unfold TA. cbn [a_d a_c a_size a_latest a_cnt].
-    unfold d2 at 1 2 3 4. cbn [f_append durable pending]. rewrite S4, S5.
-    split; [lia|]. split; [lia|]. split; [exact A3|]. split; [exact A4|]. split; [exact A5|].
+    unfold d2 at 1 2 3 4. cbn [f_append durable pending]. rewrite S4.
+    split; [lia|]. split; [lia|]. split; [exact A3|]. split; [exact A4|]. split; [exact S5|].
     split; [exact B2|]. split; [exact V2|exact A8].
 Qed.
 
@@ -166,19 +174,20 @@ Proof.
   - unfold TA, aht_of, init. cbn. repeat split; try lia; try constructor.
   - cbn. lia.
   - cbn. exact I.
+  - intros _. reflexivity.
 Qed.
 
 Lemma Q_ok {A} (a b : A) : Ok a = Ok b -> a = b.
 Proof. congruence. Qed.
 
-(* ---- steps (repaired code: c_ahtsync = true; performed by a ready store) ---- *)
+(* ---- steps (c_ahtsync = true; performed by a ready store) ---- *)
 Lemma TInv_step nv s h d o s' h' d' :
   c_ahtsync (s_cfg s) = true -> Inv nv s h d -> TInv s h -> ready s -> step s o = Ok s' ->
   Inv nv s' h' d' -> (match o with OPre _ _ => exists r, h' = h ++ [r] | _ => h' = h end) ->
   TInv s' h'.
 Proof.
   intros Fl I T Rd E I' Hh. pose proof E as E0. unfold Protocol.step in E. cbv zeta in E.
-  destruct T as [Ta Tc Tp].
+  destruct T as [Ta Tc Tp Td].
   pose proof (v_aht _ _ _ _ _ I) as (IA & Has).
   destruct o.
   - (* OVal *)
@@ -191,11 +200,11 @@ Proof.
     destruct (phase_ s) eqn:Ep; cbn [phase_idle negb] in E; try discriminate.
     rewrite R7 in E.
     destruct (_ <=? _); [discriminate|].
-    destruct (f_setoffset (txl s) (pts s)); [|discriminate].
+    destruct (f_setoffset_gen _ (txl s) (pts s)); [|discriminate].
     destruct (negb _); [discriminate|].
     apply bind_ok in E as (a1 & E1 & E). apply bind_ok in E as (a2 & E2 & E).
     apply Q_ok in E. subst s'.
-    rewrite (aht_reset_same (aht_of s) (precommitted s) Rd) in E1. apply Q_ok in E1. subst a1.
+    rewrite (aht_reset_same _ (aht_of s) (precommitted s) Rd) in E1. apply Q_ok in E1. subst a1.
     pose proof (v_chain _ _ _ _ _ I') as Ch'. pose proof (v_plen _ _ _ _ _ I) as Pl.
     assert (En: nth_error (h ++ [r]) (N.to_nat (a_size (aht_of s))) = Some r).
     { unfold aht_of; cbn [a_size]. unfold ready in Rd. rewrite Rd, Pl, Nnat.Nat2N.id.
@@ -211,11 +220,12 @@ Proof.
     assert (Ta': TA (aht_of s) (h ++ [r])).
     { eapply TA_ext; [exact Ta| |rewrite app_length; lia].
       destruct Ta as (_ & A2 & _). rewrite firstn_app_le by exact A2. reflexivity. }
-    destruct (aht_append_TA _ _ _ _ _ IA Ta' En Lr E2) as (T2 & Sz & Lt & _).
+    destruct (aht_append_TA _ _ _ _ _ IA Ta' En Lr E2) as (T2 & Sz & Lt & _ & Dk).
     constructor.
     + unfold aht_of. cbn [ahd ahc asize alatest acnt]. destruct a2; exact T2.
     + cbn [committed alatest]. unfold aht_of in Lt; cbn [a_latest] in Lt. lia.
     + cbn [phase_]. trivial.
+    + cbn [s_cfg ahc alatest]. intros Fr. apply Dk. exact (Td Fr).
   - (* OFlush *)
     subst h'.
     destruct f as [| |v| |].
@@ -232,8 +242,10 @@ Proof.
     + apply Q_ok in E. subst s'.
       destruct IA as (_ & _ & _ & _ & _ & _ & Hb & _).
       unfold aht_of in Hb; cbn [a_c] in Hb.
-      constructor; auto. unfold aht_of, upd_files. cbn [ahd ahc asize alatest acnt].
-      rewrite flushn_nobuf by exact Hb. exact Ta.
+      constructor; auto.
+      * unfold aht_of, upd_files. cbn [ahd ahc asize alatest acnt].
+        rewrite flushn_nobuf by exact Hb. exact Ta.
+      * unfold upd_files. cbn [s_cfg ahc alatest]. rewrite flushn_nobuf by exact Hb. exact Td.
   - (* OSyncStart *)
     destruct (_ && _); [|discriminate]. apply Q_ok in E. subst s'.
     subst h'. constructor; auto; cbn [phase_]; trivial.
@@ -244,9 +256,9 @@ Proof.
   - (* OSyncTx: the tree is fsynced *)
     destruct (phase_ s); try discriminate. destruct (negb _); [discriminate|].
     rewrite Fl in E. apply bind_ok in E as (a & Ea & E).
-    destruct (f_setoffset (cml s) (44 * committed s)); [|discriminate].
+    destruct (f_setoffset_gen _ (cml s) (44 * committed s)); [|discriminate].
     apply Q_ok in E. subst s'.
-    destruct (aht_sync_TA _ _ _ _ IA Ta Ea) as (T2 & La & Sz & _).
+    destruct (aht_sync_TA _ _ _ _ IA Ta Ea) as (T2 & La & Sz & _ & Dk).
     subst h'.
     unfold aht_of in La, Sz; cbn [a_size] in La, Sz.
     constructor.
@@ -254,6 +266,7 @@ Proof.
     + cbn [committed alatest]. pose proof (v_cd _ _ _ _ _ I). unfold ready in Rd. lia.
     + cbn [phase_ alatest asize]. split; [lia|]. unfold precommitted. cbn [committed pbuf].
       unfold ready, precommitted in Rd. lia.
+    + cbn [s_cfg ahc alatest]. intros Fr. apply Dk. exact (Td Fr).
   - (* OSyncC *)
     destruct (phase_ s) as [| |t] eqn:Ep; try discriminate. apply Q_ok in E. subst s'.
     pose proof (v_cph _ _ _ _ _ I) as Cph. rewrite Ep in Cph. destruct Cph as (Et & _).
@@ -306,21 +319,35 @@ Lemma relink_TA n : forall thld tx cm c pb a a' h,
                read_alh H tx cm c pb k = Ok (t_alh r) /\ len (t_alh r) = 32) ->
   (N.to_nat (a_size a) + n <= length h)%nat ->
   relink H n thld tx cm c pb a = Ok a' ->
-  TA a' h /\ a_latest a <= a_latest a' /\ AInv thld a'.
+  TA a' h /\ a_latest a <= a_latest a' /\ AInv thld a' /\
+  (len (durable (a_c a)) = 12 * a_latest a -> len (durable (a_c a')) = 12 * a_latest a').
 Proof.
   induction n as [|n IH]; intros thld tx cm c pb a a' h IA T Hr Hn E; cbn [relink] in E.
-  - apply Q_ok in E. subst a'. split; [exact T|split; [lia|exact IA]].
+  - apply Q_ok in E. subst a'. split; [exact T|split; [lia|split; [exact IA|auto]]].
   - apply bind_ok in E as (leaf & El & E). apply bind_ok in E as (a1 & Ea & E).
     destruct (nth_error h (N.to_nat (a_size a))) as [r|] eqn:En; [|apply nth_error_None in En; lia].
     assert (En': nth_error h (N.to_nat (a_size a + 1) - 1) = Some r).
     { replace (N.to_nat (a_size a + 1) - 1)%nat with (N.to_nat (a_size a)) by lia. exact En. }
     destruct (Hr (a_size a + 1) r ltac:(lia) En') as (Er & Lr).
     assert (leaf = t_alh r) by congruence. subst leaf.
-    destruct (aht_append_TA _ _ _ _ _ IA T En Lr Ea) as (T1 & Sz & Lt & IA1).
-    destruct (IH thld tx cm c pb a1 a' h IA1 T1) as (T' & Lt' & IA'); auto.
+    destruct (aht_append_TA _ _ _ _ _ IA T En Lr Ea) as (T1 & Sz & Lt & IA1 & Dk1).
+    destruct (IH thld tx cm c pb a1 a' h IA1 T1) as (T' & Lt' & IA' & Dk'); auto.
     + intros k r' Hk. apply Hr. lia.
     + lia.
-    + split; [exact T'|split; [lia|exact IA']].
+    + split; [exact T'|split; [lia|split; [exact IA'|auto]]].
+Qed.
+
+(* the size check of ahtree.OpenWith on a crash image, with the proposed repair *)
+Lemma TInv_check nv s h d im :
+  c_ahtreset (s_cfg s) = true -> Inv nv s h d -> TInv s h -> crash s im -> ~ aht_check_fails im.
+Proof.
+  intros Fr I T (_ & _ & _ & Cad & Cac).
+  destruct T as [(A1 & A2 & A3 & A4 & A5 & A6 & A7 & A8) _ _ Td]. specialize (Td Fr).
+  pose proof (v_aht _ _ _ _ _ I) as ((Wd & Wc & Hs & Hcn & H32 & Hp & Hb & H12 & Hbl & Hm) & Has).
+  unfold aht_of in *. cbn [a_d a_c a_size a_latest a_cnt] in *.
+  assert (Eac: i_ahc im = durable (ahc s)) by (apply crash_image_nopending; auto).
+  destruct (crash_image_prefix _ _ _ A5 A3 Cad) as (_ & Lad).
+  unfold aht_check_fails. rewrite Eac, Td. lia.
 Qed.
 
 Lemma recover_TInv nv s h d im upto s' :
@@ -330,46 +357,46 @@ Lemma recover_TInv nv s h d im upto s' :
 Proof.
   intros Fl I V T Cr E.
   destruct (recover_ok H H_len _ _ _ _ _ upto I V Cr)
-    as (s2 & c' & rs & E2 & Hc1 & Hc2 & Ecm & Eack & I2 & Eph & Ecfg & Etx & Evl & Ecd & Ecp & Ecb & Tcm & Ttx & Ltx & Hup & V2 & Haht).
+    as [(_ & E2)|(Hgood & s2 & c' & rs & E2 & Hc1 & Hc2 & Ecm & Eack & I2 & Eph & Ecfg & Etx & Evl & Ecd & Ecf & Hc6 & Tcm & Ttx & Ltx & Hup & V2 & Haht)];
+    [congruence|].
   assert (s2 = s') by congruence. subst s2.
   set (h' := firstn (N.to_nat c') h ++ rs) in *.
   exists h', (c' + N.of_nat (length rs)). split; [exact I2|]. split; [exact V2|].
-  cbv zeta in Haht. destruct Haht as (a1 & Ea1 & Erl).
-  destruct T as [Ta Tc Tp].
+  cbv zeta in Haht. destruct Haht as (Eac & a1 & Ea1 & IA0 & Erl).
+  destruct T as [Ta Tc Tp Td].
   destruct Ta as (A1 & A2 & A3 & A4 & A5 & A6 & A7 & A8).
-  pose proof (v_aht _ _ _ _ _ I) as ((Wd & Wc & Hs & Hcn & H32 & Hp & Hb & H12 & Hdur) & Has).
+  pose proof (v_aht _ _ _ _ _ I) as ((Wd & Wc & Hs & Hcn & H32 & Hp & Hb & H12 & Hbl & Hm) & Has).
   unfold aht_of in *. cbn [a_d a_c a_size a_latest a_cnt] in *.
   destruct Cr as (_ & Ccm & _ & Cad & Cac).
-  assert (Eac: i_ahc im = durable (ahc s)) by (apply crash_image_nopending; auto).
   destruct (crash_image_prefix _ _ _ A5 A3 Cad) as (Pad & Lad). rewrite A4 in Pad.
   pose proof (v_plen _ _ _ _ _ I) as Pl. pose proof (v_cd _ _ _ _ _ I) as Cd.
   pose proof (v_chain _ _ _ _ _ I) as Ch. pose proof (v_chain _ _ _ _ _ I2) as Ch'.
+  pose proof (proj2 (v_cfg _ _ _ _ _ I)) as Ht.
   (* the recovered committed id does not exceed latestSyncedNode *)
   assert (Hcl: c' <= alatest s).
-  { destruct (phase_ s) eqn:Ep.
-    - pose proof (v_cph _ _ _ _ _ I) as Cph. rewrite Ep in Cph. destruct Cph as (P1 & _).
-      assert (i_cml im = durable (cml s)) by (apply crash_image_nopending; auto).
-      pose proof (v_cdur _ _ _ _ _ I) as (C1 & C2 & _). pose proof (v_cdur _ _ _ _ _ I2) as (D1 & D2 & _).
-      rewrite Ecd, Ecm in D1, D2. rewrite H0 in D1, D2. lia.
-    - pose proof (v_cph _ _ _ _ _ I) as Cph. rewrite Ep in Cph. destruct Cph as (P1 & _).
-      assert (i_cml im = durable (cml s)) by (apply crash_image_nopending; auto).
-      pose proof (v_cdur _ _ _ _ _ I) as (C1 & C2 & _). pose proof (v_cdur _ _ _ _ _ I2) as (D1 & D2 & _).
-      rewrite Ecd, Ecm in D1, D2. rewrite H0 in D1, D2. lia.
-    - destruct Tp as (P1 & P2). lia. }
+  { destruct Hc6 as [-> | (t & Ept)]; [exact Tc|]. rewrite Ept in Tp. destruct Tp as (P1 & P2). lia. }
   set (asz := len (i_ahc im) / 12) in *.
   assert (Hasz: c' <= asz) by (unfold asz; rewrite Eac; lia).
-  set (a0 := mkAht (f_open (i_ahd im)) (open_trim (i_ahc im) 12) asz asz 0) in *.
+  assert (Hmod: len (i_ahc im) = 12 * asz) by (unfold asz; rewrite Eac; lia).
+  set (a0 := mkAht (f_open (i_ahd im)) (f_open (i_ahc im)) asz asz 0) in *.
   (* the reset lands on c' in both cases *)
-  assert (Ea1': a1 = mkAht (f_open (i_ahd im)) (open_trim (i_ahc im) 12) c' c' 0).
+  assert (F1: AInv (c_thld (s_cfg s)) a1 /\ a_size a1 = c' /\ a_latest a1 = c' /\ a_d a1 = f_open (i_ahd im) /\
+              12 * c' <= len (durable (a_c a1)) /\
+              (c_ahtreset (s_cfg s) = true -> len (durable (a_c a1)) = 12 * c')).
   { destruct (N.ltb_spec c' asz) as [Hlt|Hge].
-    - unfold aht_reset in Ea1. cbn [a0 a_size] in Ea1.
-      destruct (N.ltb_spec asz c'); [lia|]. destruct (N.eqb_spec asz c'); [lia|].
-      unfold aht_sync in Ea1. unfold a0 in Ea1. cbn [a_cnt a_d a_c a_size a_latest] in Ea1.
-      change (0 =? 0) with true in Ea1. cbn [bind a_d a_c] in Ea1. congruence.
-    - assert (asz = c') by lia. unfold a0 in Ea1. rewrite H0 in Ea1. congruence. }
-  subst a1.
-  destruct (open_trim_spec H H_len (i_ahc im) 12 ltac:(lia)) as (O1 & O2 & O3 & O4 & O5).
-  set (a1 := mkAht (f_open (i_ahd im)) (open_trim (i_ahc im) 12) c' c' 0) in *.
+    - destruct (aht_reset_ok (c_ahtreset (s_cfg s)) _ a0 c' IA0 Hlt Ht)
+        as (a1' & a' & Es & Er & IA' & Sz & La & Cn & Ed & Ef & Et).
+      assert (a' = a1) by congruence. subst a'.
+      assert (a1' = a0).
+      { unfold aht_sync in Es. unfold a0 in Es. cbn [a_cnt] in Es. change (0 =? 0) with true in Es.
+        cbv iota in Es. unfold a0. congruence. }
+      subst a1'. split; [exact IA'|]. split; [exact Sz|]. split; [exact La|]. split; [exact Ed|].
+      destruct (c_ahtreset (s_cfg s)).
+      + destruct (Et eq_refl) as (_ & Ll). split; [lia|auto].
+      + rewrite (Ef eq_refl). cbn [a0 a_c f_open durable]. split; [lia|discriminate].
+    - assert (asz = c') by lia. assert (a1 = a0) by congruence. subst a1.
+      split; [exact IA0|]. cbn [a0 a_size a_latest a_d a_c f_open durable]. repeat split; auto; lia. }
+  destruct F1 as (IA1 & Sz1 & La1 & Ed1 & Lc1 & Dk1).
   assert (Lc': (N.to_nat c' <= length h)%nat) by lia.
   assert (Lh': (N.to_nat c' <= length h')%nat) by (unfold h'; rewrite app_length, firstn_length_le by lia; lia).
   assert (Fh': firstn (N.to_nat c') h' = firstn (N.to_nat c') h).
@@ -379,14 +406,9 @@ Proof.
   { rewrite <- (take_take _ (32 * alatest s)) by lia. rewrite Pad.
     replace (32 * c') with (32 * N.of_nat (N.to_nat c')) by lia.
     rewrite Fh'. eapply leaves_prefix; eauto; lia. }
-  assert (IA1: AInv (c_thld (s_cfg s)) a1).
-  { unfold AInv, a1. cbn [a_d a_c a_size a_latest a_cnt]. rewrite O1, O2, O3, O4.
-    unfold f_offset. cbn [f_open bufoff buf durable]. rewrite len_nil.
-    pose proof (proj2 (v_cfg _ _ _ _ _ I)) as Ht.
-    repeat split; auto; try lia; try apply wf_open; try (unfold asz in Hasz; lia); try (rewrite Eac; lia). }
   assert (TA1: TA a1 h').
-  { unfold TA, a1. cbn [a_d a_c a_size a_latest a_cnt]. rewrite O1. cbn [f_open durable pending bufoff].
-    rewrite lview_open. repeat split; auto; try lia; try constructor; try (unfold asz in Hasz; lia). }
+  { unfold TA. rewrite Sz1, La1, Ed1. cbn [f_open durable pending bufoff].
+    rewrite lview_open. repeat split; auto; try lia; try constructor. }
   (* relink *)
   assert (Etd: durable (txl s') = i_txl im) by (rewrite Etx; reflexivity).
   assert (Epb: pbuf s' = map pb_of rs).
@@ -395,20 +417,22 @@ Proof.
     replace (N.to_nat c' - N.to_nat c')%nat with 0%nat by lia. reflexivity. }
   assert (Ptx: pending (txl s') = [] /\ buf (txl s') = []) by (rewrite Etx; split; reflexivity).
   assert (RT := fun P1 P2 => relink_TA _ _ _ _ _ _ _ _ h' IA1 TA1 P1 P2 Erl).
-  destruct RT as (T2 & Lt2 & _).
+  destruct RT as (T2 & Lt2 & _ & Dk2).
   - intros k r Hk En.
-    pose proof (read_alh_spec nv s' h' _ k r I2 (proj1 Ptx) (proj2 Ptx) En ltac:(cbn [a1 a_size] in Hk; lia)) as Rs.
+    pose proof (read_alh_spec nv s' h' _ k r I2 (proj1 Ptx) (proj2 Ptx) En ltac:(lia)) as Rs.
     rewrite Etd, Ecd, Ecm, Epb in Rs. split; [exact Rs|].
     assert (Hlt: (N.to_nat k - 1 < length h')%nat) by (apply nth_error_Some; congruence).
     destruct (chain_nth H H_len _ _ _ _ _ _ Ch' En) as (Rok & _). apply (rec_ok_alh_len H H_len); exact Rok.
-  - cbn [a1 a_size]. pose proof (v_plen _ _ _ _ _ I2) as Pl'. unfold precommitted in Pl'. rewrite Ecm, Epb, map_length in Pl'. lia.
+  - rewrite Sz1. pose proof (v_plen _ _ _ _ _ I2) as Pl'. unfold precommitted in Pl'. rewrite Ecm, Epb, map_length in Pl'. lia.
   - constructor.
     + exact T2.
-    + rewrite Ecm. cbn [a1 a_latest] in Lt2. unfold aht_of in Lt2. cbn [a_latest] in Lt2. exact Lt2.
+    + rewrite Ecm. rewrite La1 in Lt2. unfold aht_of in Lt2. cbn [a_latest] in Lt2. exact Lt2.
     + rewrite Eph. trivial.
+    + rewrite Ecfg. intros Fr. unfold aht_of in Dk2. cbn [a_c a_latest] in Dk2. apply Dk2.
+      rewrite La1. auto.
 Qed.
 
-(* ---- every reachable state of the repaired code ---- *)
+(* ---- every reachable state (code since b260503) ---- *)
 Lemma reach_TInv c nv s :
   c_prealloc c = false -> 0 < c_thld c -> c_ahtsync c = true -> reach c nv s ->
   s_cfg s = c /\ exists h d, Inv nv s h d /\ VInv H s h d /\ TInv s h.
@@ -422,8 +446,46 @@ Proof.
   - destruct IH as (Ec & h & d & I & V & T).
     rewrite <- Ec in E, Fl.
     destruct (recover_TInv _ _ _ _ _ _ _ Fl I V T Cr E) as (h' & d' & I' & V' & T').
-    destruct (Progress.recover_core H _ _ _ _ E) as (_ & _ & _ & _ & _ & _ & _ & Ecf).
+    destruct (Progress.recover_core H _ _ _ _ E) as (_ & _ & _ & _ & _ & _ & _ & Ecf & _).
     split; [congruence|]. eauto.
+Qed.
+
+(* ================= with the proposed repair: recovery never fails ================= *)
+Theorem aht_check_never_fails c nv s im :
+  c_prealloc c = false -> 0 < c_thld c -> c_ahtsync c = true -> c_ahtreset c = true ->
+  reach c nv s -> crash s im -> ~ aht_check_fails im.
+Proof.
+  intros Hp Ht Fl Fr R Cr.
+  destruct (reach_TInv _ _ _ Hp Ht Fl R) as (Ec & h & d & I & _ & T).
+  eapply TInv_check; eauto. rewrite Ec. exact Fr.
+Qed.
+
+Theorem crash_safety_repaired c nv s im :
+  c_prealloc c = false -> 0 < c_thld c -> c_ahtsync c = true -> c_ahtreset c = true ->
+  reach c nv s -> crash s im ->
+  exists s', recover H c im = Ok s' /\ reach c nv s' /\ recovered_ok H s im s'.
+Proof.
+  intros Hp Ht Fl Fr R Cr.
+  destruct (crash_safety H H_len c nv s im Hp Ht R Cr) as [(Bad & _)|(_ & Good)]; [|exact Good].
+  exfalso. exact (aht_check_never_fails c nv s im Hp Ht Fl Fr R Cr Bad).
+Qed.
+
+Theorem crash_during_recovery_repaired c nv s im upto s1 im' :
+  c_prealloc c = false -> 0 < c_thld c -> c_ahtsync c = true -> c_ahtreset c = true ->
+  reach c nv s -> crash s im -> recover_upto H upto c im = Ok s1 -> crash s1 im' ->
+  exists sf s2,
+    recover H c im = Ok sf /\ recover H c im' = Ok s2 /\
+    committed s2 = committed sf /\ calh s2 = calh sf /\ pbuf s2 = pbuf sf /\ palh s2 = palh sf /\
+    pts s2 = pts sf /\ acked s2 = acked sf /\ txl s2 = txl sf /\ vls s2 = vls sf /\
+    phase_ s2 = PIdle /\ phase_ sf = PIdle /\ asize s2 = precommitted s2 /\ asize sf = precommitted sf.
+Proof.
+  intros Hp Ht Fl Fr R Cr E1 Cr'.
+  destruct (Progress.crash_during_recovery H H_len c nv s im upto s1 im' Hp Ht R Cr E1 Cr')
+    as (_ & _ & _ & sf & Ef & Pf & Sf & [(Bad & _)|(_ & s2 & E2 & K)]).
+  - exfalso. assert (R1: reach c nv s1) by (eapply r_crash; eauto).
+    exact (aht_check_never_fails c nv s1 im' Hp Ht Fl Fr R1 Cr' Bad).
+  - exists sf, s2. destruct K as (K1 & K2 & K3 & K4 & K5 & K6 & K7 & K8 & K9 & K10).
+    repeat split; auto.
 Qed.
 
 Lemma leaves_slice pid pa off h n k r :
@@ -442,14 +504,14 @@ Proof.
   rewrite El. rewrite <- Lr at 1. apply (slice_app_mid H H_len).
 Qed.
 
-(* ================= the hash tree of the repaired code ================= *)
+(* ================= the hash tree (code since b260503) ================= *)
 Theorem tree_ok c nv s :
   c_prealloc c = false -> 0 < c_thld c -> c_ahtsync c = true -> reach c nv s ->
   forall k, 1 <= k <= asize s -> tree_leaf s k = tx_alh H s k /\ len (tree_leaf s k) = 32.
 Proof.
   intros Hp Ht Fl R k Hk.
   destruct (reach_TInv _ _ _ Hp Ht Fl R) as (_ & h & d & I & _ & T).
-  destruct T as [(A1 & A2 & A3 & A4 & A5 & A6 & A7 & A8) _ _].
+  destruct T as [(A1 & A2 & A3 & A4 & A5 & A6 & A7 & A8) _ _ _].
   unfold aht_of in *. cbn [a_d a_c a_size a_latest] in *.
   pose proof (v_chain _ _ _ _ _ I) as Ch. pose proof (v_plen _ _ _ _ _ I) as Pl.
   pose proof (v_cd _ _ _ _ _ I) as Cd.
